@@ -32,10 +32,9 @@ Definition fmt_g (q : Q) : option string :=
     if (Z.leb (Z.of_nat (String.length fs)) 6 && Z.leb lz 3)%bool
     then Some ("0." ++ pad ++ fs)%string else None.
 
-(* _str_atoms on one atom: Sym, Sym[A] for isotopes (D and T by name, but their ions as D[2]{+}:
-   the test is 'symbol' in fragment.__dict__, which an Ion object never has), then {n+} / {n-} *)
+(* _str_atoms on one atom: Sym, Sym[A] for isotopes (D and T by name, also as ions), then {n+} / {n-} *)
 Definition atom_str (sym : atom -> string) (a : atom) : string :=
-  let named := (Z.eqb (az a) 1 && (Z.eqb (aa a) 2 || Z.eqb (aa a) 3) && Z.eqb (aq a) 0)%bool in
+  let named := (Z.eqb (az a) 1 && (Z.eqb (aa a) 2 || Z.eqb (aa a) 3))%bool in
   let base := if (Z.eqb (aa a) 0 || named)%bool then sym a
               else (sym a ++ "[" ++ Z_to_string (aa a) ++ "]")%string in
   let q := aq a in
